@@ -624,3 +624,51 @@ def ls1(P, C):
              "a candidate step length is admitted without %s: a coordinate that is exactly 0 and wants to decrease gives the candidate 0, which as "
              "the last (unconditionally accepted) element of the list returns the starting point, and nnls_normal_block3 repeats the same solve "
              "forever" % " and ".join(t for t, v in (("`< 1`", below1), ("`> 0`", above0)) if not v))
+
+
+def sg7(P, C):
+    """SG-7: the outer iteration cap of every block solver grows with the problem."""
+    C.rule("SG-7", "the three block-pivoting solvers (nnls_normal_block, nnls_normal_block_updown, nnls_normal_block3) bound their outer loop "
+           "by a count that is computed from the number of unknowns (the siblings agree on 3*nvar): an active-set method may have to release "
+           "one coefficient per iteration (a data-free stretch along the monotonic dimension does exactly that), so a fixed constant stops "
+           "short of the optimum on large enough tables while the function still returns normally", floor=3)
+    n = 0
+    for name in ("nnls_normal_block", "nnls_normal_block_updown", "nnls_normal_block3"):
+        fs_ = [f for f in P.fns(name) if f.unit.startswith("fitter/")]
+        if len(fs_) != 1:
+            raise core.AnalysisBroken("SG-7: %s not found" % name)
+        f = fs_[0]
+        # the outermost loops of the body, and of those the one that contains the solve
+        loops = [i for i in f.walk() if f.k(i) in ("ForStmt", "WhileStmt", "DoStmt") and not any(f.k(a) in ("ForStmt", "WhileStmt", "DoStmt") for a in f.ancestors(i))]
+        main = [L for L in loops if any(cal and (cal["name"].startswith("cholmod_l_solve") or cal["name"] == "cholesky_solve") for _i, cal in f.calls(L))]
+        if len(main) != 1:
+            raise core.AnalysisBroken("SG-7: outer loop of %s not identified (%d candidates)" % (name, len(main)))
+        L = main[0]
+        cond = f.nodes[L].get("cond", -1)
+        capvars = set()
+        for x in f.walk(cond):
+            if f.k(x) == "DeclRefExpr" and f.nodes[x]["decl"].get("kind") in ("Var", "ParmVar"):
+                capvars.add(f.nodes[x]["decl"]["id"])
+        # the loop's own counter (assigned in init / inc of a for loop, or decremented in the condition) is the other side of the comparison
+        defs = []
+        for x in f.walk():
+            ap = ts.assign_parts(f, x)
+            if ap and ap[1] is not None and f.nodes[x].get("op") == "=" and f.k(f.strip(ap[0])) == "DeclRefExpr" and \
+                    f.nodes[f.strip(ap[0])]["decl"]["id"] in capvars and f.seq(x) < f.seq(L) and x not in set(f.walk(L)):
+                defs.append((f.nodes[f.strip(ap[0])]["decl"]["id"], ap[1], x))
+        sized = [d for d in defs if any(f.k(y) == "DeclRefExpr" and f.nodes[y]["decl"].get("name") in ("nvar",) for y in f.walk(d[1]))]
+        consts = [d for d in defs if f.nodes[f.strip(d[1])].get("cv") is not None and f.nodes[f.strip(d[1])].get("cv") != 0]
+        # a constant that only serves as a floor (chosen under a comparison with the sized expression: max(120, 3*nvar)) is fine
+        def is_floor(d):
+            for a in f.ancestors(d[2]):
+                if f.k(a) in ("IfStmt", "ConditionalOperator") and any(f.k(y) == "DeclRefExpr" and f.nodes[y]["decl"].get("name") == "nvar" for y in f.walk(f.nodes[a]["cond"])):
+                    return True
+            return False
+        consts = [d for d in consts if not is_floor(d)]
+        ok = bool(sized) and not consts
+        n += 1
+        C.ob("SG-7", name, "iteration-cap-scales-with-the-problem", ok, f.loc(consts[0][2]) if consts else (f.loc(sized[0][2]) if sized else f.loc(L)),
+             "outer loop bounded by %s" % f.render(sized[0][2]) if ok else
+             "the outer loop is bounded by the constant %s: with more coefficients to release than that, one per iteration, the solver stops before the "
+             "optimum and returns as if it had converged (its siblings use 3*nvar)" % (f.render(consts[0][2]) if consts else "?"))
+    return n
